@@ -182,8 +182,13 @@ func tcContexts() []tcContext {
 				stepMsg(0, "", mk(32, vID(4), vDict("match", vStr("wildcard")), vURI("tc..x"))),
 				stepSync(1), stepSync(0)},
 			msg: func(n int, o V) []Step {
-				topic := []string{"tc.topic", "hist.topic", "tc.a.x"}[n%3]
-				return []Step{{S: 0, Op: "msg", Re: true, M: mk(16, vRef("req"), o, vURI(topic), vList(vInt(n)), vDict("a", vInt(1)))}}
+				// every option goes to a topic with an exact subscriber, to one with an
+				// event-history store and to one matched by prefix and wildcard subscriptions
+				var out []Step
+				for _, topic := range []string{"tc.topic", "hist.topic", "tc.a.x"} {
+					out = append(out, Step{S: 0, Op: "msg", Re: true, M: mk(16, vRef("req"), o, vURI(topic), vList(vInt(n)), vDict("a", vInt(1)))})
+				}
+				return out
 			}},
 		{name: "SUBSCRIBE", sessions: one, setup: []Step{stepAttach(0)},
 			msg: func(n int, o V) []Step {
